@@ -1832,10 +1832,8 @@ class SpaceUpdater(SharedSpaceOperations):
         for b in basenodes:
             self._graph.remove_edge(b, node)
 
-        self._instructions.append(
-            Instruction(self._update_derived_space, (node,))
-        )
-        for _, v in nx.edge_bfs(self.manager._graph, node):
+        # Update each sub space after all of its bases
+        for v in self._graph.ordered_subs(node):
             self._instructions.append(
                 Instruction(self._update_derived_space, (v,))
             )
@@ -1860,11 +1858,15 @@ class SpaceUpdater(SharedSpaceOperations):
             [self.manager._graph.to_space(n) for n in nodes_removed])
 
         # Update the sub spaces of the deleted space and of its descendants
-        for _, v in nx.edge_bfs(self.manager._graph, nodes_removed):
-            if v not in nodes_removed:
-                self._instructions.append(
-                    Instruction(self._update_derived_space, (v,))
-                )
+        # each after all of its bases
+        subs = set()
+        for n in nodes_removed:
+            subs |= nx.descendants(self.manager._graph, n)
+        subs -= set(nodes_removed)
+        for v in nx.topological_sort(self.manager._graph.subgraph(subs)):
+            self._instructions.append(
+                Instruction(self._update_derived_space, (v,))
+            )
 
         self._graph.remove_nodes_from(nodes_removed)
 
